@@ -267,3 +267,12 @@ Theorem C07_recent_history_sound_in_every_reachable_state :
   rs = map DirSoundReach.entry_of_state (firstn (N.to_nat r) (user_history (d_states st) l (d_epoch st))) \/ Bad.
 Proof. exact DirSoundReach.history_recent_sound_reachable. Qed.
 Print Assumptions C07_recent_history_sound_in_every_reachable_state.
+
+(* the premises of the directory-level theorems have a model in which history proofs verify
+   (Witness.v; the full list of premises is spelled out in C06_reachable_premises_satisfiable) *)
+From Akd Require Import LookupComplete Witness.
+Example C07_reachable_premises_satisfiable :
+  exists p eh, key_history s6_cfg [9] s6_vrf_label s6_vrf_proof s6_st s6_user HComplete = DOk (p, eh) /\
+    key_history_verify s6_cfg s6_check [] (snd eh) (fst eh) s6_user p HComplete false = Some [VRes 2 2 [6]; VRes 1 1 [5]] /\
+    key_history_verify s6_cfg s6_check [] (snd eh) (fst eh) s6_user p HComplete true = Some [VRes 2 2 [6]; VRes 1 1 [5]].
+Proof. exact (proj1 (proj2 (proj2 (proj2 (proj2 (proj2 (proj2 (proj2 (proj2 (proj2 (proj2 s6_premises))))))))))). Qed.
